@@ -48,7 +48,7 @@ pub struct Fixed3 {
     pub c: u64,
 }
 
-#[derive(Encode)]
+#[derive(Encode, Decode)]
 #[ssz(enum_behaviour = "transparent")]
 pub enum TE {
     A(Vec<u8>),
